@@ -206,9 +206,10 @@ class PlanJoinTablesQuery:
                 # try to use second arg, could be: 'x'=col
                 col_idx = 1
 
-        if isinstance(node, BinaryOperation) and node.op.lower() == 'is':
-            # 'col IS NULL' holds for the rows an outer join adds: it can't be checked before the join
-            return
+        if isinstance(node, BinaryOperation) and node.op.lower() in ('is', 'is not'):
+            # 'col IS NULL', 'col IS NOT TRUE' hold for the rows an outer join adds: they can't be checked before the join
+            if node.op.lower() == 'is' or not isinstance(node.args[1], ast.NullConstant):
+                return
 
         # check the case col <condition> constant, col between constant and constant
         for i, arg in enumerate(node.args):
